@@ -12,6 +12,7 @@ import (
 	"errors"
 	"fmt"
 	"strings"
+	"sync"
 
 	ds "github.com/ipfs/go-datastore"
 	"github.com/ipfs/go-datastore/query"
@@ -97,6 +98,8 @@ type keystore struct {
 	requests chan operation
 	close    chan struct{}
 	done     chan struct{}
+	// closeOnce makes closing the close channel safe for concurrent Close calls.
+	closeOnce sync.Once
 
 	logger *log.ZapEventLogger
 }
@@ -616,20 +619,21 @@ func (s *keystore) Size(ctx context.Context) (int, error) {
 // called after <-s.done to avoid race conditions with the worker goroutine.
 func (s *keystore) Close() error {
 	var err error
-	select {
-	case <-s.close:
-		// A Close call is under way or over: like it, return only once the
-		// worker has exited.
-		<-s.done
-	default:
+	first := false
+	s.closeOnce.Do(func() {
+		first = true
 		close(s.close)
-		<-s.done // Wait for worker to exit
-		if err = s.persistSize(); err != nil {
-			return fmt.Errorf("error persisting size on close: %w", err)
-		}
-		if err = s.ds.Sync(context.Background(), sizeKey); err != nil {
-			return fmt.Errorf("error syncing size on close: %w", err)
-		}
+	})
+	<-s.done // Wait for worker to exit
+	if !first {
+		// Another Close call is under way or over.
+		return nil
+	}
+	if err = s.persistSize(); err != nil {
+		return fmt.Errorf("error persisting size on close: %w", err)
+	}
+	if err = s.ds.Sync(context.Background(), sizeKey); err != nil {
+		return fmt.Errorf("error syncing size on close: %w", err)
 	}
 	return err
 }
